@@ -28,11 +28,11 @@ AddrValid(c) == c \in {"A", "B", "B2"}
 AddrClasses == {"A", "B", "B2", "sub", "bad", "http"}
 
 \* directory-name classes -> concrete strings
-DirOf(c) == CASE c = "d1" -> "d1" [] c = "d2" -> "d2" [] c = "hash" -> "Zm9vYmFyYmF6cXV4LWhhc2gtbGlrZQ"
+DirOf(c) == CASE c = "d1" -> "d1" [] c = "D1" -> "D1" [] c = "d2" -> "d2" [] c = "hash" -> "Zm9vYmFyYmF6cXV4LWhhc2gtbGlrZQ"
               [] c = "nested" -> "a/b" [] c = "dot" -> "." [] c = "dotdot" -> ".." [] c = "empty" -> ""
               [] c = "abs" -> "/abs" [] c = "up" -> "../x" [] c = "downup" -> "a/.." [] c = "bs" -> "a\\b"
               [] c = "manifest" -> "terraform-sources.json" [] c = "tmp" -> ".tmp-x"
-DirClasses == {"d1", "d2", "hash", "nested", "dot", "dotdot", "empty", "abs", "up", "downup", "bs", "manifest", "tmp"}
+DirClasses == {"d1", "D1", "d2", "hash", "nested", "dot", "dotdot", "empty", "abs", "up", "downup", "bs", "manifest", "tmp"}
 \* L0: names C18 says must be refused (a separator, ".", ".." - and the empty name, which denotes the root itself)
 DirHostile(c) == c \in {"nested", "dot", "dotdot", "empty", "abs", "up", "downup"}
 
